@@ -24,6 +24,10 @@ from pypika_tortoise import Case, Field, Not
 from pypika_tortoise import functions as FN
 from pypika_tortoise.terms import Function, Mod, NullValue, Pow, Term, ValueWrapper
 
+from pypika_tortoise.enums import Dialects as _Dialects
+
+_DIALECT_MEMBERS = list(_Dialects)
+
 PROPERTY = "C06"
 
 ARITH = ["+", "-", "*", "/"]
@@ -731,6 +735,26 @@ def _run_case(case):
                 res.violate("C06|%s|%s" % (sg, dcls),
                             "rendered expression %s (dialect %s); minimal failing sub-tree %r" % (r[0], d, m),
                             tree=e, dialect=d, **r[1])
+    # every member of the Dialects enum (not only the six with a query class): grouping does not depend on the dialect
+    if "generic" not in inline_bad:
+        exp_m = None
+        for m in _DIALECT_MEMBERS:
+            res.transitions += 1
+            try:
+                sqlm = term.get_sql(fp.CTX["generic"].copy(dialect=m))
+            except Exception as ex:
+                sqlm = "!" + type(ex).__name__
+            if sqlm == fresh["generic"]:
+                continue
+            try:
+                gotm = norm(parse_expr(sqlm, "mysql" if m.name == "MYSQL" else "sqlite"))
+            except (ParseError, LexError) as ex:
+                gotm = ("unparsable", str(ex))
+            if exp_m is None:
+                exp_m = norm(B(e))
+            if gotm != exp_m:
+                res.violate("C06|dialect-member|%s|%s" % (m.name, top(e)), "the expression groups differently (or does not parse) under the context of "
+                            "this member of the Dialects enum", tree=e, member=m.name, sql=sqlm, generic=fresh["generic"])
     # the term as an output column (the top node is rendered with with_alias=True there): same text, it carries no alias
     for d in fp.CTX:
         if d in inline_bad:
